@@ -42,7 +42,9 @@ func (t *refTimer) signal() bool { return t.tac&4 != 0 && t.counter&bitMask[t.ta
 // tick returns (irqAllowed, irqRequired) for this tick.
 func (t *refTimer) tick() (allowed, required bool) {
 	t.counter += 4
-	inPhaseTick := t.phase != 0
+	// the order of "reload" and "count" is only open where both happen at the same instant: at
+	// the end of cycle A, and at the end of cycle B if TMA was written in it
+	inPhaseTick := t.phase == 1 || (t.phase == 2 && t.tmaWritten)
 	switch t.phase {
 	case 1:
 		if !t.timaWritten {
@@ -417,7 +419,7 @@ func main() {
 		Rule: "sequence cases: every operation sequence of the bounded length over {tick, DIV write, TIMA<-{00,FE,FF}, TMA<-{00,7F,FF}, TAC<-{00,04..07}} from every start state " +
 			"(8 TAC values x counter 1-4 ticks before each edge of the selected bit and around FFFC/0000 x TIMA {FD,FE,FF,00} x TMA {00,23,FF}), each distinct; DIV, TIMA, TMA, TAC and the tick's interrupt result compared after every operation; plus long random schedules",
 		Assumptions: []string{"edges are sampled at the end of each machine cycle (the pinned unit tests require TIMA to stay unchanged right after a TAC enable + DIV reset with no cycle in between)",
-			"not judged (counted as unspecified): writes to TIMA/TMA in the cycle after a cancelled reload, a falling edge in the same machine cycle as a reload step, two overflows within two cycles",
+			"not judged (counted as unspecified): writes to TIMA/TMA in the cycle after a cancelled reload, a falling edge at the very instant of the reload (end of cycle A, or end of cycle B with a TMA write in it), two overflows within two cycles",
 			"the abstract TLA+ model check mentioned in the property's quantifier is a different technique and is not performed"},
 	})
 }
